@@ -75,10 +75,22 @@ func (x *xts) CryptBlocks(dst, src []byte) {
 			encryptSm4Xts(&x.b.enc[0], &x.tweak, dst, src)
 		}
 	} else {
-		if x.isGB {
-			decryptSm4XtsGB(&x.b.dec[0], &x.tweak, dst, src)
-		} else {
-			decryptSm4Xts(&x.b.dec[0], &x.tweak, dst, src)
-		}	
+		// Ciphertext stealing needs the last full block together with the
+		// partial one; the bulk loops of the assembly would consume it, so
+		// hand them only the blocks before it.
+		if r := len(src) % BlockSize; r != 0 && len(src) > 2*BlockSize {
+			n := len(src) - r - BlockSize
+			x.decrypt(dst[:n], src[:n])
+			dst, src = dst[n:], src[n:]
+		}
+		x.decrypt(dst, src)
+	}
+}
+
+func (x *xts) decrypt(dst, src []byte) {
+	if x.isGB {
+		decryptSm4XtsGB(&x.b.dec[0], &x.tweak, dst, src)
+	} else {
+		decryptSm4Xts(&x.b.dec[0], &x.tweak, dst, src)
 	}
 }
